@@ -713,6 +713,28 @@ class _HoistWalrus(ast.NodeTransformer):
             self.n += 1
         return pre
 
+    def _split_and(self, stmt: ast.If) -> ast.If:
+        """`if A and f(x := E) and C: BODY` (no else)  ->  `if A: x = E; if f(x) and C: BODY`: the conjuncts before the one
+        that assigns are tested first, exactly as `and` does"""
+        for _ in range(3):
+            t = stmt.test
+            if stmt.orelse or not (isinstance(t, ast.BoolOp) and isinstance(t.op, ast.And)):
+                return stmt
+            k = next((i for i, v in enumerate(t.values) if i > 0 and any(isinstance(x, ast.NamedExpr) for x in ast.walk(v))), None)
+            if k is None or any(isinstance(x, ast.NamedExpr) for v in t.values[:k] for x in ast.walk(v)):
+                return stmt
+            rest_vals = t.values[k:]
+            inner_test = rest_vals[0] if len(rest_vals) == 1 else ast.copy_location(ast.BoolOp(op=ast.And(), values=rest_vals), t)
+            inner = ast.copy_location(ast.If(test=inner_test, body=stmt.body, orelse=[]), stmt)
+            pre = self._hoist(inner)
+            if not pre:
+                return stmt
+            inner = self._split_and(inner)
+            outer_vals = t.values[:k]
+            outer_test = outer_vals[0] if len(outer_vals) == 1 else ast.copy_location(ast.BoolOp(op=ast.And(), values=outer_vals), t)
+            stmt = ast.copy_location(ast.If(test=outer_test, body=pre + [inner], orelse=[]), stmt)
+        return stmt
+
     def generic_visit(self, node):
         super().generic_visit(node)
         for fld in ("body", "orelse", "finalbody"):
@@ -722,6 +744,8 @@ class _HoistWalrus(ast.NodeTransformer):
                 for s_ in stmts:
                     if any(isinstance(x, ast.NamedExpr) for x in ast.walk(s_) if not isinstance(s_, (ast.FunctionDef, ast.ClassDef, ast.AsyncFunctionDef, ast.For, ast.While, ast.With, ast.Try))):
                         new.extend(self._hoist(s_))
+                        if isinstance(s_, ast.If) and any(isinstance(x, ast.NamedExpr) for x in ast.walk(s_.test)):
+                            s_ = self._split_and(s_)
                     new.append(s_)
                 setattr(node, fld, new)
         return node
@@ -898,8 +922,52 @@ def _own_returns(f: ast.AST):
     return [n for n in _own_walk(f) if isinstance(n, ast.Return)]
 
 
+def _alias_methods(trees: Dict[str, ast.Module]) -> int:
+    """class body `name = staticmethod(f)`, f a module-level function of the package with plain positional parameters:
+    written out as the static method it is -  @staticmethod def name(a, b): return f(a, b)"""
+    tops: Dict[str, List[ast.FunctionDef]] = {}
+    for t in trees.values():
+        for f in t.body:
+            if isinstance(f, ast.FunctionDef):
+                tops.setdefault(f.name, []).append(f)
+    n = 0
+    for t in trees.values():
+        for c in [x for x in ast.walk(t) if isinstance(x, ast.ClassDef)]:
+            for i, st in enumerate(list(c.body)):
+                if not (isinstance(st, ast.Assign) and len(st.targets) == 1 and isinstance(st.targets[0], ast.Name)):
+                    continue
+                v = st.value
+                if not (isinstance(v, ast.Call) and isinstance(v.func, ast.Name) and v.func.id == "staticmethod" and len(v.args) == 1 and isinstance(v.args[0], ast.Name) and not v.keywords):
+                    continue
+                cands = tops.get(v.args[0].id, [])
+                if len(cands) != 1:
+                    continue
+                f = cands[0]
+                a = f.args
+                if a.vararg or a.kwarg or a.kwonlyargs or a.posonlyargs or a.defaults:
+                    continue
+                params = [x.arg for x in a.args]
+                fwd = ast.FunctionDef(
+                    name=st.targets[0].id,
+                    args=ast.arguments(posonlyargs=[], args=[ast.arg(arg=p_, annotation=None) for p_ in params], vararg=None, kwonlyargs=[], kw_defaults=[], kwarg=None, defaults=[]),
+                    body=[ast.Return(value=ast.Call(func=ast.Name(id=f.name, ctx=ast.Load()), args=[ast.Name(id=p_, ctx=ast.Load()) for p_ in params], keywords=[]))],
+                    decorator_list=[ast.Name(id="staticmethod", ctx=ast.Load())],
+                    returns=None,
+                    type_comment=None,
+                )
+                if hasattr(ast, "TypeVar"):
+                    fwd.type_params = []  # type: ignore
+                ast.copy_location(fwd, st)
+                c.body[i] = fwd
+                n += 1
+        if n:
+            ast.fix_missing_locations(t)
+    return n
+
+
 def canonicalise(trees: Dict[str, ast.Module]) -> Dict[str, str]:
     """rename renamed private anchors back (in the trees); returns {canonical name: name used in this tree}"""
+    _alias_methods(trees)
     for t in trees.values():
         _Deannotate().visit(t)
     for t in trees.values():
